@@ -1082,12 +1082,28 @@ func (kcp *KCP) Check() uint32 {
 
 // SetMtu changes MTU size, default is 1400
 func (kcp *KCP) SetMtu(mtu int) int {
-	if mtu <= IKCP_OVERHEAD {
+	if mtu <= IKCP_OVERHEAD || mtu > 0x7fffffff-IKCP_OVERHEAD {
 		return -1
 	}
 
+	// a segment lives in a pooled packet buffer, whatever the MTU
+	mss := min(mtu-IKCP_OVERHEAD, mtuLimit)
+
+	// Segments already queued were cut for the current MSS and cannot be cut
+	// again: an MTU they do not fit cannot be honoured.
+	for seg := range kcp.snd_queue.ForEach {
+		if len(seg.data) > mss {
+			return -1
+		}
+	}
+	for seg := range kcp.snd_buf.ForEach {
+		if len(seg.data) > mss {
+			return -1
+		}
+	}
+
 	kcp.mtu = uint32(mtu)
-	kcp.mss = kcp.mtu - IKCP_OVERHEAD
+	kcp.mss = uint32(mss)
 	kcp.buffer = make([]byte, (mtu+IKCP_OVERHEAD)*3)
 	return 0
 }
